@@ -87,29 +87,45 @@ def signals_registered():
 
 
 def nonperiodic_writes():
-    """BaseNestedSampler.checkpoint: on the path periodic=False no `return` precedes the dump."""
+    """BaseNestedSampler.checkpoint on the path periodic=False (what the handler calls): is the dump
+    reached UNCONDITIONALLY?  -> (bool, explanation).  A `return` / `raise` on that path, or a return
+    under a condition that does not depend on `periodic` / `force` alone (e.g. a re-entrancy flag),
+    makes the handler's checkpoint conditional: (False, which statement)."""
     mod, _ = parse("nessai/samplers/base.py")
     fn = find_function(mod, "checkpoint", cls="BaseNestedSampler")
     body = strip_doc(fn.body)
     seen_guard = False
+    periodic_tests = ("notperiodic", "periodicisFalse", "periodic==False")
+
+    def exits(stmts):
+        return [n for b in stmts for n in ast.walk(b) if isinstance(n, (ast.Return, ast.Raise))]
+
     for s in body:
-        if isinstance(s, ast.If) and _norm(s.test) in ("notperiodic", "periodicisFalse", "periodic==False"):
+        if isinstance(s, ast.If) and _norm(s.test) in periodic_tests:
             seen_guard = True
-            if any(isinstance(n, (ast.Return, ast.Raise)) for b in s.body for n in ast.walk(b)):
-                return False
+            if exits(s.body):
+                return False, f"the forced branch `if {unparse(s.test)}:` returns or raises (line {exits(s.body)[0].lineno})"
+            continue
+        if isinstance(s, ast.If) and _norm(s.test) in ("periodic", "periodicisTrue") and not seen_guard:
+            seen_guard = True
+            if exits(s.orelse):
+                return False, f"the forced branch (else of `if {unparse(s.test)}:`) returns or raises"
             continue
         if isinstance(s, (ast.Return, ast.Raise)):
-            return False
-        if isinstance(s, ast.If) and not seen_guard:
-            # some other top-level test before the periodic test that may return
-            if any(isinstance(n, ast.Return) for n in ast.walk(s)):
-                raise Declined(f"checkpoint: conditional return before the periodic test: {unparse(s.test)}")
+            return False, f"unconditional `{unparse(s)}` before the dump (line {s.lineno})"
+        if isinstance(s, ast.If) and not seen_guard and exits([s]):
+            return False, (f"`if {unparse(s.test)}:` at line {s.lineno} can return before the checkpoint is written - the "
+                           "handler's checkpoint is conditional on it")
         dumps = [n for n in ast.walk(s) if isinstance(n, ast.Call) and dotted(n.func) == "safe_file_dump"]
         if dumps:
             a = [_norm(x) for x in dumps[0].args]
             if a[:2] != ["self", "self.resume_file"]:
                 raise Declined(f"checkpoint dumps {a[:2]}")
-            return seen_guard
+            if not seen_guard:
+                raise Declined("checkpoint: no test of `periodic` before the dump")
+            return True, "no return on the periodic=False path before safe_file_dump(self, self.resume_file, ..)"
+        if isinstance(s, ast.If) and seen_guard and exits([s]):
+            return False, f"`if {unparse(s.test)}:` at line {s.lineno} can return before the checkpoint is written"
     raise Declined("checkpoint: safe_file_dump(self, self.resume_file, ..) not found")
 
 
@@ -375,3 +391,55 @@ def stmt_index(relpath, cls, func):
         for ln in range(n.lineno, hi + 1):
             out[ln] = unparse(n).split("\n")[0]
     return out
+
+
+SEED_CALLS = {"configure_random_seed": "SeedConfigure", "np.random.seed": "SeedNumpy", "numpy.random.seed": "SeedNumpy",
+              "torch.manual_seed": "SeedTorch", "torch.seed": "SeedTorch", "torch.cuda.manual_seed": "SeedTorch",
+              "torch.cuda.manual_seed_all": "SeedTorch", "random.seed": "SeedOther", "seed_everything": "SeedOther"}
+RESUME_ROOTS = ("resume", "resume_from_pickled_sampler", "_resume_from_file", "_resume_from_data", "__setstate__",
+                "check_resume")
+
+
+def resume_seeding(depth=2):
+    """Every call that seeds a global random generator reachable from the resume path: the functions
+    named like RESUME_ROOTS anywhere in the package plus, to `depth` levels, the methods they call
+    on self / cls / the resumed object (resolved by name within the package).
+    -> (Coq list of seedcall, [(file, function, line, call text)])"""
+    import os
+    from pyast import REPO
+    funcs = {}   # name -> [(rel, qualified name, node)]
+    for dp, _, fs in sorted(os.walk(os.path.join(REPO, "nessai"))):
+        for f in sorted(fs):
+            if not f.endswith(".py"):
+                continue
+            rel = os.path.relpath(os.path.join(dp, f), REPO)
+            mod, _ = parse(rel)
+            for cls in [n for n in mod.body if isinstance(n, ast.ClassDef)]:
+                for n in cls.body:
+                    if isinstance(n, (ast.FunctionDef, ast.AsyncFunctionDef)):
+                        funcs.setdefault(n.name, []).append((rel, f"{cls.name}.{n.name}", n))
+            for n in mod.body:
+                if isinstance(n, (ast.FunctionDef, ast.AsyncFunctionDef)):
+                    funcs.setdefault(n.name, []).append((rel, n.name, n))
+    todo = [(name, 0) for name in RESUME_ROOTS]
+    seen, found = set(), []
+    skip = {"__init__", "info", "debug", "warning", "error", "get", "append", "update", "join", "exists", "load", "open"}
+    while todo:
+        name, d = todo.pop()
+        if name in seen or name not in funcs:
+            continue
+        seen.add(name)
+        for rel, qn, node in funcs[name]:
+            for c in ast.walk(node):
+                if not isinstance(c, ast.Call):
+                    continue
+                dn = dotted(c.func) or ""
+                last = dn.split(".")[-1]
+                kind = SEED_CALLS.get(dn) or (SEED_CALLS.get(last) if last in ("configure_random_seed", "seed_everything") else None)
+                if kind:
+                    found.append((rel, qn, c.lineno, unparse(c), kind))
+                elif d < depth and isinstance(c.func, ast.Attribute) and last not in skip and last in funcs \
+                        and (dn.split(".")[0] in ("self", "cls", "sampler", "obj", "ns", "SamplerClass", "super()") or dn.startswith("super()")):
+                    todo.append((last, d + 1))
+    found = sorted(set(found))
+    return "[" + "; ".join(f[4] for f in found) + "]", [f[:4] for f in found]
